@@ -42,7 +42,7 @@ theorem runCore_invAll (p : Program) (ff0 : Bool) (hwf : wf p = true) :
     rw [hs] at hnd
     simp only [stackIds] at hnd
     exact fun hm => (List.nodup_append.mp hnd).2.2 _ hm _ List.mem_cons_self rfl
-  · rintro s _ ⟨T, A, U, h⟩ _ _ _
+  · rintro s _ ⟨T, A, U, h⟩ _ _
     refine ⟨_, _, _, ⟨h.d.forced, ?_, h.cov.forced, ?_⟩⟩
     · exact ⟨by rw [got_stack']; exact h.keys.nodup, by rw [got_stack', got_execd]; exact h.keys.origin⟩
     · exact ⟨by rw [got_execd, got_stack']; exact h.once.nodup, by rw [got_execd, got_stack']; exact h.once.fresh⟩
